@@ -333,6 +333,115 @@ func shapeFacts() map[string]any {
 		}
 	}
 	out["shape_subquery_debit_before_resolve"] = subOK
+
+	// ---- the guards the termination argument (FStep / TStep) rests on
+	hasReturn := func(b *ast.BlockStmt) bool {
+		for _, st := range b.List {
+			if _, ok := st.(*ast.ReturnStmt); ok {
+				return true
+			}
+		}
+		return false
+	}
+	// checkDname: `if depth >= maxDnameDepth { return }` and the depth+1 re-tag precede the internal exchange
+	dnameOK := false
+	if fd := res.fn("Resolver", "checkDname"); fd != nil {
+		ex := callsNamed(fd.Body, "internalExchange")
+		var guard, retag token.Pos
+		ast.Inspect(fd.Body, func(x ast.Node) bool {
+			if is, ok := x.(*ast.IfStmt); ok && guard == 0 && res.text(is.Cond) == "depth >= maxDnameDepth" && hasReturn(is.Body) {
+				guard = is.Pos()
+			}
+			if c, ok := x.(*ast.CallExpr); ok && callName(c) == "WithValue" && strings.Contains(res.text(c), "contextKeyDnameDepth, depth+1") {
+				retag = c.Pos()
+			}
+			return true
+		})
+		dnameOK = len(ex) > 0 && guard != 0 && retag != 0 && guard < minPos(ex) && retag < minPos(ex) &&
+			topIndex(fd.Body, guard) < topIndex(fd.Body, minPos(ex))
+	}
+	out["shape_dname_depth_guard"] = dnameOK
+
+	// every descent spends depth and stops at zero before it re-enters resolve
+	depthGuard := func(name string) bool {
+		fd := res.fn("Resolver", name)
+		if fd == nil {
+			return false
+		}
+		var dec, chk token.Pos
+		ast.Inspect(fd.Body, func(x ast.Node) bool {
+			switch st := x.(type) {
+			case *ast.IncDecStmt:
+				if st.Tok == token.DEC && res.text(st.X) == "rs.depth" && st.Pos() > dec {
+					dec = st.Pos()
+				}
+			case *ast.IfStmt:
+				if res.text(st.Cond) == "rs.depth <= 0" && hasReturn(st.Body) {
+					chk = st.Pos()
+				}
+			}
+			return true
+		})
+		rec := callsNamed(fd.Body, "resolve")
+		if dec == 0 || chk == 0 || len(rec) == 0 {
+			return false
+		}
+		last := maxPos(rec)
+		// the final re-entry is a top-level statement after the decrement and the check
+		return dec < chk && chk < last && topIndex(fd.Body, chk) < topIndex(fd.Body, last) &&
+			len(res.enclosingConds(fd.Body, last)) == 0 && len(res.enclosingConds(fd.Body, chk)) == 0
+	}
+	out["shape_delegation_spends_depth"] = depthGuard("processDelegation")
+	out["shape_cached_descent_spends_depth"] = depthGuard("resolveWithCachedNameservers")
+
+	// `rs.level++` (outside the cached descent) only under a condition that mentions `minimized`;
+	// `rs.nomin = true` only under `minimized`
+	levelOK, nominOK := true, false
+	nLevel := 0
+	for _, name := range []string{"resolve", "processAuthoritySection", "processDelegation", "handleLookupError"} {
+		fd := res.fn("Resolver", name)
+		if fd == nil {
+			levelOK = false
+			continue
+		}
+		ast.Inspect(fd.Body, func(x ast.Node) bool {
+			switch st := x.(type) {
+			case *ast.IncDecStmt:
+				if st.Tok == token.INC && res.text(st.X) == "rs.level" {
+					nLevel++
+					ok := false
+					for _, c := range res.enclosingConds(fd.Body, st.Pos()) {
+						if strings.Contains(c, "minimized") {
+							ok = true
+						}
+					}
+					if !ok {
+						levelOK = false
+					}
+				}
+			case *ast.AssignStmt:
+				if len(st.Lhs) == 1 && res.text(st.Lhs[0]) == "rs.nomin" {
+					for _, c := range res.enclosingConds(fd.Body, st.Pos()) {
+						if c == "minimized" {
+							nominOK = true
+						}
+					}
+				}
+			}
+			return true
+		})
+	}
+	out["shape_level_up_only_when_minimized"] = levelOK && nLevel > 0
+	out["shape_nomin_retry_only_when_minimized"] = nominOK
+
+	// NS-address lookups consult checkLoop first
+	loopOK := false
+	if fd := res.fn("Resolver", "lookupV4Nss"); fd != nil {
+		cl := callsNamed(fd.Body, "checkLoop")
+		lk := callsNamed(fd.Body, "lookupNSAddrV4")
+		loopOK = len(cl) > 0 && len(lk) > 0 && minPos(cl) < minPos(lk)
+	}
+	out["shape_checkloop_before_ns_lookup"] = loopOK
 	return out
 }
 
